@@ -31,6 +31,7 @@ def gen(rng, n, modes=('idle', 'lit', 'closed', 'own', 'idle_then_lit')):
                             'fn': 'ensure_aw' if mode != 'lit' else rng.choice(['ensure_aw', 'ensure_aw', 'run_aw_threadsafe']),
                             'to': 'own' if mode == 'own' or rng.random() < 0.15 else 'T',
                             'aw': {'kind': kind, 'out': rng.choice(['val', 'val', 'exc']),
+                                   'exccls': rng.choice(['plain', 'runtime', 'runtime', 'lookup', 'timeout']),
                                    'dur': rng.choice([0.0, 0.0, 1.0, 2.0])}})
         sc = {'target': target, 'callers': callers, 'stop_at': rng.choice([0.0, 0.0, 3.0]), 'strategy': strat(rng)}
         if mode == 'idle_then_lit':
